@@ -286,6 +286,194 @@ func extractGroup(repo, root string) error {
 		return fmt.Errorf("untranslated: Reader.unsubscribe does not call a cancel func")
 	}
 
+	// consumergroup.go nextGeneration: which collection the partition watchers are started over
+	watcherRange := ""
+	if fd := funcOf(gf, "ConsumerGroup", "nextGeneration"); fd != nil {
+		ast.Inspect(fd.Body, func(n ast.Node) bool {
+			if rs, ok := n.(*ast.RangeStmt); ok && contains(rs.Body, func(m ast.Node) bool {
+				c, ok := m.(*ast.CallExpr)
+				return ok && sel(c.Fun) == "partitionWatcher"
+			}) {
+				watcherRange = sel(rs.X)
+			}
+			return true
+		})
+	}
+	if watcherRange == "" {
+		return fmt.Errorf("untranslated: no `for … range … { …partitionWatcher(…) }` in nextGeneration")
+	}
+
+	// consumergroup.go coordinator(): what the second `connect` dials — the address is built from the FindCoordinator
+	// answer: `<join>(<…>.Host, <…(…>.Port…)>)`, directly or through one local variable.
+	var coordDial []string
+	if fd := funcOf(gf, "ConsumerGroup", "coordinator"); fd != nil {
+		defs := map[string]ast.Expr{}
+		var last *ast.CallExpr
+		ast.Inspect(fd.Body, func(n ast.Node) bool {
+			switch x := n.(type) {
+			case *ast.AssignStmt:
+				if len(x.Lhs) == 1 && len(x.Rhs) == 1 {
+					if id, ok := x.Lhs[0].(*ast.Ident); ok {
+						defs[id.Name] = x.Rhs[0]
+					}
+				}
+			case *ast.CallExpr:
+				if sel(x.Fun) == "connect" {
+					last = x
+				}
+			}
+			return true
+		})
+		var inner func(e ast.Expr) string // the selector at the bottom of conversions / formatting calls
+		inner = func(e ast.Expr) string {
+			if c, ok := e.(*ast.CallExpr); ok && len(c.Args) == 1 {
+				return inner(c.Args[0])
+			}
+			return sel(e)
+		}
+		if last != nil && len(last.Args) == 2 && !last.Ellipsis.IsValid() {
+			arg := last.Args[1]
+			if id, ok := arg.(*ast.Ident); ok && defs[id.Name] != nil {
+				arg = defs[id.Name]
+			}
+			if c, ok := arg.(*ast.CallExpr); ok {
+				coordDial = append(coordDial, fmt.Sprintf("%q", sel(c.Fun)))
+				for _, a := range c.Args {
+					coordDial = append(coordDial, fmt.Sprintf("%q", inner(a)))
+				}
+			} else {
+				coordDial = append(coordDial, fmt.Sprintf("%q", sel(arg)))
+			}
+		}
+	}
+	if len(coordDial) == 0 {
+		return fmt.Errorf("untranslated: coordinator() does not end in connect(dialer, <one address>)")
+	}
+
+	// consumergroup.go ConsumerGroupConfig.Validate: `if config.<F> == 0 { config.<F> = <default> }` (also `len(config.<F>)
+	// == 0`), the default resolved to milliseconds through the package's `default… = <n> * time.<Unit>` constants where it is
+	// a duration, otherwise its name (composite literal: the element types).
+	constMs := map[string]string{}
+	unitMs := map[string]int64{"Millisecond": 1, "Second": 1000, "Minute": 60000, "Hour": 3600000}
+	var evalMs func(e ast.Expr) (int64, bool)
+	evalMs = func(e ast.Expr) (int64, bool) {
+		switch x := e.(type) {
+		case *ast.ParenExpr:
+			return evalMs(x.X)
+		case *ast.BasicLit:
+			var n int64
+			if _, err := fmt.Sscanf(x.Value, "%d", &n); err == nil && x.Kind == token.INT {
+				return n, true
+			}
+		case *ast.UnaryExpr:
+			if n, ok := evalMs(x.X); ok && x.Op == token.SUB {
+				return -n, true
+			}
+		case *ast.SelectorExpr:
+			if id, ok := x.X.(*ast.Ident); ok && id.Name == "time" {
+				if u, ok := unitMs[x.Sel.Name]; ok {
+					return u, true
+				}
+			}
+		case *ast.BinaryExpr:
+			a, oka := evalMs(x.X)
+			b, okb := evalMs(x.Y)
+			if oka && okb && x.Op == token.MUL {
+				return a * b, true
+			}
+		}
+		return 0, false
+	}
+	for _, d := range gf.Decls {
+		if gd, ok := d.(*ast.GenDecl); ok && gd.Tok == token.CONST {
+			for _, sp := range gd.Specs {
+				if vs, ok := sp.(*ast.ValueSpec); ok && len(vs.Names) == 1 && len(vs.Values) == 1 {
+					if hasUnit := contains(vs.Values[0], func(m ast.Node) bool {
+						se, ok := m.(*ast.SelectorExpr)
+						return ok && sel(se.X) == "time"
+					}); hasUnit {
+						if n, ok := evalMs(vs.Values[0]); ok {
+							constMs[vs.Names[0].Name] = fmt.Sprint(n)
+						}
+					}
+				}
+			}
+		}
+	}
+	var validateDefaults []string
+	if fd := funcOf(gf, "ConsumerGroupConfig", "Validate"); fd != nil {
+		for _, st := range fd.Body.List {
+			is, ok := st.(*ast.IfStmt)
+			if !ok || len(is.Body.List) != 1 {
+				continue
+			}
+			be, ok := is.Cond.(*ast.BinaryExpr)
+			if !ok || be.Op != token.EQL {
+				continue
+			}
+			if z, ok := be.Y.(*ast.BasicLit); !ok || (z.Value != "0" && z.Value != `""`) {
+				continue
+			}
+			as, ok := is.Body.List[0].(*ast.AssignStmt)
+			if !ok || len(as.Lhs) != 1 || len(as.Rhs) != 1 {
+				continue
+			}
+			tested := be.X
+			if c, ok := tested.(*ast.CallExpr); ok && sel(c.Fun) == "len" && len(c.Args) == 1 {
+				tested = c.Args[0]
+			}
+			if sel(tested) != sel(as.Lhs[0]) {
+				continue // not "a zero field gets its default"
+			}
+			val := sel(as.Rhs[0])
+			if ms, ok := constMs[val]; ok {
+				val = ms
+			}
+			if cl, ok := as.Rhs[0].(*ast.CompositeLit); ok {
+				var ts []string
+				for _, el := range cl.Elts {
+					if ecl, ok := el.(*ast.CompositeLit); ok {
+						ts = append(ts, sel(ecl.Type))
+					}
+				}
+				val = strings.Join(ts, ",")
+			}
+			validateDefaults = append(validateDefaults, fmt.Sprintf("(%q, %q)", sel(as.Lhs[0]), val))
+		}
+	}
+	if len(validateDefaults) == 0 {
+		return fmt.Errorf("untranslated: ConsumerGroupConfig.Validate sets no defaults")
+	}
+
+	// reader.go (*reader).run: the restart position.  `conn, <start>, err := r.initialize(ctx, <offset>)` is followed by an
+	// assignment `<x> = <start>`: it must be a plain assignment (not a `:=` that shadows) to the function's own offset
+	// parameter, so that the next (re)initialisation starts from where the fetcher stands.
+	restartTok, restartToParam := "", false
+	if fd := funcOf(rf, "reader", "run"); fd != nil {
+		param := ""
+		if ps := fd.Type.Params.List; len(ps) > 0 {
+			if last := ps[len(ps)-1]; len(last.Names) > 0 {
+				param = last.Names[len(last.Names)-1].Name
+			}
+		}
+		startVar := ""
+		ast.Inspect(fd.Body, func(n ast.Node) bool {
+			if a, ok := n.(*ast.AssignStmt); ok && len(a.Rhs) == 1 {
+				if c, ok := a.Rhs[0].(*ast.CallExpr); ok && sel(c.Fun) == "initialize" && len(a.Lhs) == 3 {
+					startVar = sel(a.Lhs[1])
+				}
+				if id, ok := a.Rhs[0].(*ast.Ident); ok && startVar != "" && id.Name == startVar && len(a.Lhs) == 1 && restartTok == "" {
+					restartTok = a.Tok.String()
+					restartToParam = sel(a.Lhs[0]) == param
+				}
+			}
+			return true
+		})
+	}
+	if restartTok == "" {
+		return fmt.Errorf("untranslated: (*reader).run has no `<offset> = <start>` after r.initialize")
+	}
+
 	// reader.go NewReader: the ConsumerGroupConfig literal — which ReaderConfig field feeds which ConsumerGroupConfig field
 	var optPairs []string
 	if fd := funcOf(rf, "", "NewReader"); fd != nil {
@@ -320,6 +508,10 @@ func extractGroup(repo, root string) error {
 	fmt.Fprintf(&b, "def leaveRequestFields : List (String × String) := [%s]\n", strings.Join(leaveReq, ", "))
 	fmt.Fprintf(&b, "def generationLiteral : List (String × String) := [%s]\n", strings.Join(genLit, ", "))
 	fmt.Fprintf(&b, "def unsubscribeCancels : String := %q\n", unsubCancels)
+	fmt.Fprintf(&b, "def restartAssign : String × Bool := (%q, %v)\n", restartTok, restartToParam)
+	fmt.Fprintf(&b, "def watcherRange : String := %q\n", watcherRange)
+	fmt.Fprintf(&b, "def coordinatorDial : List String := [%s]\n", strings.Join(coordDial, ", "))
+	fmt.Fprintf(&b, "def validateDefaults : List (String × String) := [%s]\n", strings.Join(validateDefaults, ", "))
 	fmt.Fprintf(&b, "def fetchVersionFilter : String := %q\n", versionOp)
 	fmt.Fprintf(&b, "def readerGroupOptions : List (String × String) := [%s]\n", strings.Join(optPairs, ", "))
 	b.WriteString("end KV.Gen.Group\n")
